@@ -53,6 +53,7 @@ fn build(shape: &Value, kind: u8, rng: &mut StdRng) -> (WMsg, Framing) {
     };
     let framing = match shape.get("framing") {
         Some(f) if f["mode"] == "raw" => Framing::Raw { threshold: f["T"].as_u64().unwrap() as usize },
+        Some(f) if f["mode"] == "zstd" => Framing::Zstd { threshold: f["T"].as_u64().unwrap() as usize },
         _ => Framing::Like { threshold: 16384 },
     };
     let mut ver = 0u64;
@@ -113,6 +114,7 @@ fn main() {
                 let (msg, framing) = build(shape, kind, &mut rng);
                 let bytes = codec::encode(&msg, &framing);
                 let is_raw = matches!(framing, Framing::Raw { .. });
+                let is_like = matches!(framing, Framing::Like { .. });
                 let mut obs = serde_json::Map::new();
                 obs.insert("codec_len".into(), json!(bytes.len()));
                 let dec = codec::decode(&bytes).expect("codec decodes its own output");
@@ -135,7 +137,7 @@ fn main() {
                             Ok((rl, _)) => { obs.insert("same_message".into(), json!(debug_view(&rl) == debug_view(&rm))); }
                             Err(e) => { obs.insert("same_message".into(), json!(false)); obs.insert("real_err".into(), json!(e)); }
                         }
-                        if !is_raw && reser_ok {
+                        if is_like && reser_ok {
                             let re = catch_unwind(AssertUnwindSafe(|| rm.serialize_to_vec()));
                             match re {
                                 Ok(b2) => {
